@@ -18,7 +18,7 @@ class Cond:
         return "Cond(%s %r)" % (self.kind, d)
 
 def _single_def(du, local):
-    ds = du.defs.get(local, [])
+    ds = du.value_defs(local)
     return ds[0] if len(ds) == 1 else None
 
 def switch_cond(body, du, term):
@@ -33,7 +33,7 @@ def switch_cond(body, du, term):
             return _mk(Cond("field", place=place), neg)
         if du.const_only(place.l) is not None:
             return _mk(Cond("const", local=place.l), neg)
-        ds = du.defs.get(place.l, [])
+        ds = du.value_defs(place.l)
         if len(ds) != 1:
             return _mk(Cond("multi", local=place.l, defs=ds), neg)
         k, d = ds[0]
@@ -88,3 +88,49 @@ def variant_edge(term, variant_idx):
     for v, b in term.targets:
         if v == variant_idx: return (term.bb, v, b)
     return (term.bb, "otherwise", term.otherwise)
+
+
+def bool_sources(du, local, max_nodes=60):
+    """leaves a bool local can take its value from, following moves/copies/casts and `!` through every definition:
+    list of ("const", int, negated) | ("call", term, negated) | ("other", obj, negated)"""
+    out = []; seen = set(); work = [(local, False)]
+    while work and len(seen) < max_nodes:
+        l, neg = work.pop()
+        if (l, neg) in seen: continue
+        seen.add((l, neg))
+        ds = du.value_defs(l)
+        if not ds: out.append(("other", None, neg)); continue
+        for k, d in ds:
+            if k == "call": out.append(("call", d, neg)); continue
+            if k == "arg": out.append(("other", d, neg)); continue
+            s = d
+            if s.kind != "assign" or s.lhs.p: out.append(("other", s, neg)); continue
+            if s.rv in ("use", "cast") and s.ops:
+                o = s.ops[0]
+                if o.is_const: out.append(("const", o.cint(), neg))
+                elif o.place is not None and not o.place.p: work.append((o.place.l, neg))
+                else: out.append(("other", s, neg))
+            elif s.rv == "un" and s.op == "Not" and s.ops and s.ops[0].place is not None and not s.ops[0].place.p:
+                work.append((s.ops[0].place.l, not neg))
+            else: out.append(("other", s, neg))
+    return out
+
+
+def edges_implying_call(body, du, cfg, pred):
+    """switch edges (src,label,dst) on a bool local that can only be taken when a call satisfying `pred(term)` returned true
+    (`pos`) resp. is known to be the only way the bool could have been true, so the false edge says nothing; returns (pos, neg):
+    pos = edges implying the call returned true, neg = edges taken when the bool (whose sources include the call) is false"""
+    pos = set(); neg = set()
+    for b in body.blocks:
+        if b.cleanup or b.term.kind != "switch": continue
+        t = b.term
+        if t.discr is None or t.discr.place is None or t.discr.place.p: continue
+        src = bool_sources(du, t.discr.place.l)
+        calls = [(c, n) for k, c, n in src if k == "call"]
+        if not calls or not any(pred(c) for c, n in calls): continue
+        # the bool is true only if some source is true: constants false and the matching (non-negated) calls
+        can_true_other = [x for x in src if not ((x[0] == "const" and bool(x[1]) == x[2]) or (x[0] == "call" and pred(x[1]) and not x[2]))]
+        te, fe = bool_edges(t)
+        if not can_true_other: pos.add(te)
+        neg.add(fe)
+    return pos, neg
